@@ -30,21 +30,22 @@ META = dict(
     rule="case = receiver scenario (acks / hooks as sync callables, coroutines, or plain callables returning a non-coroutine awaitable "
          "- Future, Task, object with __await__, generator-based coroutine - that completes later) with a fault history (raise / BaseException / timeout label with instant or slow cancellation clean-up / no-result / malformed / unknown / "
          "failing backend / raising pre- or post-hook / pre-, post-, post_save-, on_error-hook or set_result ending with asyncio.CancelledError "
-         "(raised, or a cancelled future awaited: the callback task ends CANCELLED) or another BaseException) followed by A+1 long probe tasks; non-trivial iff finite A, >= A messages "
+         "(raised, or a cancelled future awaited: the callback task ends CANCELLED) or another BaseException; in ~16 % of the scenarios 2-4 "
+         "further recording middlewares whose hook invocations independently return, suspend for a virtual delay or fail, per message) followed by A+1 long probe tasks; non-trivial iff finite A, >= A messages "
          "ending abnormally and a probe present; distinct by canonical scenario",
     trusted_base=["model: coq/theories/RecvLTS.v", "logging shims + raw log -> LTS event grouping: harness/shims.py; harness/vloop.py",
                   "asyncio semantics assumed by the model: a task step is atomic; Semaphore / Queue / wait / done-callbacks as documented"],
     assumptions=["fairness of the asyncio event loop (an enabled task step is eventually run)",
                  "the broker's listen() generator takes a message only at its yield and raises nothing but StopAsyncIteration"],
 )
-PROF = dict(probe=True, stop_p=.12, n_p=.1, ends_p=.08, wtt_p=.2, slowcancel=.2, abort_p=.07)
+PROF = dict(probe=True, stop_p=.12, n_p=.1, ends_p=.08, wtt_p=.2, slowcancel=.2, abort_p=.07, mw_p=.16)
 FAIL_POINTS = ("pre_fail", "post_fail", "save_fail", "psave_fail", "onerr_fail")
 DELTA = R.US            # a ready message must start within 1 s (virtual) of a slot being free
 
 
 def abnormal(m):
     return (m["kind"] != "ok" or m["out"] != "ret" or m.get("pre_fail") or m.get("post_fail") or m.get("save_fail")
-            or m.get("psave_fail") or m.get("onerr_fail")
+            or m.get("psave_fail") or m.get("onerr_fail") or any(s.get("fail") for d in m.get("mw") or [] for s in d.values())
             or (m.get("tlabel_us") is not None and 0 <= m["tlabel_us"] < m["dur"]))
 
 
@@ -55,7 +56,8 @@ def oracle(sc, obs):
     msgs = sc["msgs"]
     # (1) at no instant more than A messages in processing (first .. last observable event of a message: callback
     #     entry .. callback exit, which brackets hooks, body, save, ack - and, should it come later, the COMPLETION of an
-    #     acknowledgement / of a hook's awaitable that was begun: `ack` .. `ack.end`, `hook.aw` .. `hook.aw.end`)
+    #     acknowledgement / of a hook's awaitable / of any middleware hook invocation that was begun: `ack` .. `ack.end`,
+    #     `hook.aw` .. `hook.aw.end`, `hook.begin` .. `hook.end` - whoever awaits it)
     proc, peak, body, bpeak = set(), 0, set(), 0
     cbopen, inflight = set(), {}
     order = []
@@ -72,10 +74,10 @@ def oracle(sc, obs):
             cbopen.discard(a)
             if not inflight.get(a):
                 proc.discard(a)
-        elif tag in ("ack", "hook.aw"):
+        elif tag in ("ack", "hook.aw", "hook.begin"):
             inflight[a] = inflight.get(a, 0) + 1
             proc.add(a)
-        elif tag in ("ack.end", "hook.aw.end"):
+        elif tag in ("ack.end", "hook.aw.end", "hook.end"):
             inflight[a] = inflight.get(a, 0) - 1
             if not inflight[a] and a not in cbopen:
                 proc.discard(a)
